@@ -89,7 +89,7 @@ theorem returnByValue_good (s : PState) (x : Nat) (hg : Good s) (hx : (s.td x).a
   have : ((allocTracked s (s.td x).tracker).td s.nTd).alive = true := by rw [e]
   exact (killTracked_good _ _ g1 this).1
 
-theorem trackerRemoved_fold (l : List Nat) (s : PState) (t : Nat)
+theorem trackerRemoved_fold (l : List Nat) (s : PState)
     (hl : ∀ x ∈ l, (s.td x).alive = true) (hf : s.fault = false) :
     (removeAll s l).fault = false ∧ (removeAll s l).tr = s.tr ∧
       (removeAll s l).nTr = s.nTr ∧ (removeAll s l).nTd = s.nTd ∧
@@ -97,7 +97,7 @@ theorem trackerRemoved_fold (l : List Nat) (s : PState) (t : Nat)
       (∀ x, x ∈ l → ((removeAll s l).td x).tracker = none) ∧
       (∀ x, x ∉ l → (removeAll s l).td x = s.td x) := by
   induction l generalizing s with
-  | nil => simp [removeAll]
+  | nil => simp [removeAll, hf]
   | cons a l ih =>
     have ha := hl a (by simp)
     have hs : ∀ x ∈ l, ((trackerRemoved s a).td x).alive = true := by
@@ -122,14 +122,14 @@ theorem trackerRemoved_fold (l : List Nat) (s : PState) (t : Nat)
     · intro x hx
       have hxa : x ≠ a := by intro e; apply hx; simp [e]
       have hxl : x ∉ l := by intro e; apply hx; simp [e]
-      rw [i7 x hxl]; simp [trackerRemoved, derefTd, upd_apply, hxa]
+      rw [i7 x hxl]; simp [trackerRemoved, derefTd, hxa]
 
 theorem destroyTracker_good (s : PState) (t : Nat) (hg : Good s) (ht : (s.tr t).alive = true) :
     Good ({ (removeAll s (s.tr t).set) with
               tr := upd (removeAll s (s.tr t).set).tr t { alive := false, set := [] } }) := by
   obtain ⟨⟨h1, h2, h3, h4⟩, hf⟩ := hg
   have hl : ∀ x ∈ (s.tr t).set, (s.td x).alive = true := fun x hx => (h2 t x ht hx).1
-  obtain ⟨i1, i2, i3, i4, i5, i6, i7⟩ := trackerRemoved_fold (s.tr t).set s t hl hf
+  obtain ⟨i1, i2, i3, i4, i5, i6, i7⟩ := trackerRemoved_fold (s.tr t).set s hl hf
   refine ⟨⟨?_, ?_, ?_, ?_⟩, ?_⟩
   · intro x u hx hu
     simp only [i2] at *
@@ -139,12 +139,12 @@ theorem destroyTracker_good (s : PState) (t : Nat) (hg : Good s) (ht : (s.tr t).
     · rw [i7 x hm] at hu
       have := h1 x u hx hu
       have hut : u ≠ t := by intro e; subst e; exact hm this.2
-      simp [upd_apply, hut, this]
+      simp [hut, this]
   · intro u x hu hx
     simp only [i2] at *
     by_cases hut : u = t
     · subst hut; simp at hu
-    · simp [upd_apply, hut] at hu hx
+    · simp [hut] at hu hx
       have := h2 u x hu hx
       have hm : x ∉ (s.tr t).set := by
         intro hm; have := h2 t x ht hm; grind
@@ -193,7 +193,7 @@ theorem pstep_good (s : PState) (op : POp) (hg : Good s) : Good (pstep s op) := 
       have hne : src ≠ s.nTr := by intro e; rw [e, fresh] at hs; cases hs
       refine (moveAll_good _ _ _ newTr (by simp) ?_).1
       intro x hx
-      simp [upd_apply, hne] at hx ⊢
+      simp [hne] at hx ⊢
       exact (h2 src x hs hx).1
     · exact hg0
   | moveAssignTracker dst src =>
